@@ -104,6 +104,7 @@ def run(sid, props, tier):
     if p.returncode != 0:
         sh("git -C /repo reset -q --hard HEAD && git -C /repo clean -fdq"); sys.exit("patch does not apply: " + p.stderr[-1000:])
     res = {}
+    before = set(glob.glob(f"{ROOT}/replays/*/*.json"))
     try:
         sh("git -C /repo reset -q")
         for pr in props:
@@ -119,8 +120,20 @@ def run(sid, props, tier):
             meta["caught_by"] = cb
     finally:
         sh("git -C /repo reset -q --hard HEAD && git -C /repo clean -fdq")
-        # evidence files and replays written while the seed was applied are not evidence of the real tree
-        sh("git checkout -- evidence 2>/dev/null; git clean -fdq replays evidence", cwd=ROOT)
+        # evidence files written while the seed was applied are not evidence of the real tree
+        sh("git checkout -- evidence 2>/dev/null", cwd=ROOT)
+        # the cases that exposed the seed become regression replays (they pass on the unchanged tree): keep two per check
+        new = sorted(set(glob.glob(f"{ROOT}/replays/*/*.json")) - before)
+        kept = {}
+        for f in new:
+            pr = os.path.basename(os.path.dirname(f))
+            n = kept.get(pr, 0)
+            prefix = "fixed-" if sid.startswith("H-") else "seed-"
+            if n < 2 and os.path.getsize(f) < 200000:
+                os.replace(f, os.path.join(os.path.dirname(f), f"{prefix}{sid}-{n + 1}.json"))
+                kept[pr] = n + 1
+            else:
+                os.remove(f)
     json.dump(meta, open(os.path.join(d, "meta.json"), "w"), indent=1)
     return res
 
